@@ -982,6 +982,18 @@ theorem density_matrix_semantics_is_rho_of_compiled_tableau (c : Circuit) (hgood
     { t := Tab.ket0 (c.ne + c.np), writes := [], script := script, rand := [], outs := [] } rfl sc
   exact ⟨s', by rw [Commute.stabRun_eq_runSeq c hgood har hg seq d script c.ne c.np rfl rfl]; exact h1, h2⟩
 
+/-- **the measurement primitive of the density-matrix semantics is the Born-weighted tableau measurement**: on `ρ(t)` (valid
+    tableau, real stabilizer rows) with recorded outcome `o` it returns `w · ρ(t')`, `t'` the tableau `z_measurement_gate`
+    returns (C07 `meas_density`), `w = tr(Π_o ρ)` the probability of the recorded outcome when it can occur — then it is the
+    outcome the API reports — and `w = 0` (zero matrix: the branch cannot occur) otherwise; scalar weights pass through every
+    primitive (`Commute.appPD_smul`), so weights multiply along a run -/
+theorem density_matrix_measurement_is_born_weighted_tableau_measurement (t : Tab) (q : Nat) (o : Bool) (hq : q < t.n)
+    (hv : t.Valid) (hr : t.StabReal) :
+    Commute.appPD t.n (.meas q o) (some (Hilbert.tabRho t.n t)) =
+      some ((if (t.zMeasure q o).2.1 = o then Matrix.trace (Hilbert.proj t.n (PRow.Zq q o) * Hilbert.tabRho t.n t) else 0) •
+        Hilbert.tabRho t.n (t.zMeasure q o).1) :=
+  Commute.appPD_meas_tab t q o hq hv hr
+
 /-- the hypothesis of the commutation theorems is met by real operations: a Hadamard on emitter 0 and a CNOT on photons 0, 1 -/
 example : ∀ r, r ∈ [(⟨.e, 0⟩ : Reg)] → r ∉ [(⟨.p, 0⟩ : Reg), ⟨.p, 1⟩] := by decide
 
